@@ -340,10 +340,13 @@ class Program(object):
                         return self.modules[imp[1]]
                     return External(imp[1])
                 modname, attr = imp[1], imp[2]
-                if modname in self.modules:
-                    module, name = self.modules[modname], attr
-                    continue
                 sub = '%s.%s' % (modname, attr)
+                if modname in self.modules:
+                    pm = self.modules[modname]
+                    if sub in self.modules and not (attr in pm.classes or attr in pm.funcs or attr in pm.assigns or attr in pm.imports):
+                        return self.modules[sub]          # from package import submodule
+                    module, name = pm, attr
+                    continue
                 if sub in self.modules:
                     return self.modules[sub]
                 return External('%s.%s' % (modname, attr))
@@ -445,6 +448,24 @@ class Program(object):
                 else:
                     raise Unfoldable('f-string')
             return ''.join(parts)
+        if isinstance(expr, ast.Call) and isinstance(expr.func, ast.Name) and expr.func.id in ('locals', 'vars') \
+                and not expr.args and not expr.keywords and cls is not None:
+            # locals() in a class body: the names the body has bound before this statement
+            ns = {}
+            for st in cls.node.body:
+                if getattr(st, 'lineno', 0) >= expr.lineno:
+                    break
+                tgt = None
+                if isinstance(st, ast.Assign) and len(st.targets) == 1 and isinstance(st.targets[0], ast.Name):
+                    tgt, val = st.targets[0].id, st.value
+                elif isinstance(st, ast.AnnAssign) and isinstance(st.target, ast.Name) and st.value is not None:
+                    tgt, val = st.target.id, st.value
+                if tgt is not None:
+                    try:
+                        ns[tgt] = f(val, module, cls, env)
+                    except Unfoldable:
+                        raise Unfoldable('locals() of a class body with a non-constant member (%s)' % tgt)
+            return ns
         if isinstance(expr, ast.Call):
             fn = expr.func
             ref = None
@@ -587,6 +608,16 @@ class Program(object):
         try:
             I = Interp(self)
             paths = []
+
+            def lift(v):
+                # constant containers become (closed, definite) heap objects of the interpreter
+                if isinstance(v, dict):
+                    return ADict({k_: lift(x_) for k_, x_ in v.items()}, name='const')
+                if isinstance(v, list):
+                    return AList([lift(x_) for x_ in v])
+                return v
+            args = [lift(a_) for a_ in args]
+            kwargs = {k_: lift(v_) for k_, v_ in kwargs.items()}
             try:
                 for path in I.explore(lambda: I.call_function(fi, list(args), dict(kwargs), None)):
                     paths.append(path)
